@@ -54,6 +54,10 @@ def gen_cases(tier, seed):
         c['noise'] = float(rng.choice([1.0, 3.0]))
         c['with_csv'] = False
         c['with_hdf5'] = False
+        # every third case: level names that are prefixes of each other
+        # ('type', 'type_fine', ...)
+        if i % 3 == 0:
+            c['level_pool'] = 3
         cases.append(c)
     return cases
 
@@ -100,16 +104,25 @@ def run_case(spec, work):
                 'counters': {}, 'features': ['raised'], 'nontrivial': True}
 
     # (C) dropping a level the taxonomy does not contain changes nothing
-    wc = mapworld.derive_world(w, 'absent',
-                               cfg_updates={'drop_level': 'no_such_level'})
-    jc, err = run(wc)
-    counters['absent_level_pairs'] = 1
-    if jc is None:
-        viol.append({'sig': 'C17:absent-level-raises', 'msg': err})
-    elif mapworld.strip_volatile(jc) != mapworld.strip_volatile(base):
-        viol.append({'sig': 'C17:absent-level-changes-output',
-                     'msg': 'outputs differ when dropping a level that is '
-                            'not in the taxonomy'})
+    #     (a name unrelated to any level, and names that are a proper
+    #     prefix / an extension of an existing level's name)
+    absent = ['no_such_level', model.hierarchy[0][:-1] or 'q',
+              model.hierarchy[-1] + '_x']
+    absent = [a for a in absent if a not in model.hierarchy]
+    for ai, aname in enumerate(absent):
+        wc = mapworld.derive_world(w, f'absent{ai}',
+                                   cfg_updates={'drop_level': aname})
+        jc, err = run(wc)
+        counters['absent_level_pairs'] = counters.get(
+            'absent_level_pairs', 0) + 1
+        if jc is None:
+            viol.append({'sig': 'C17:absent-level-raises',
+                         'msg': f'drop_level={aname!r}: {err}'})
+        elif mapworld.strip_volatile(jc) != mapworld.strip_volatile(base):
+            viol.append({'sig': 'C17:absent-level-changes-output',
+                         'msg': f'outputs differ when dropping {aname!r}, '
+                                f'which is not a level of '
+                                f'{model.hierarchy}'})
 
     if len(model.hierarchy) > 1:
         # (A)/(B) every droppable level
